@@ -603,6 +603,23 @@ def _mk_exe_class():
     return CtlExe
 
 
+def _any_input_locked(node) -> bool:
+    """some node of the graph refuses assignments to its data inputs right now (the state a lock refusal reports)"""
+    try:
+        if node.data_input_locked():
+            return True
+    except Exception:  # noqa: BLE001
+        pass
+    kids = getattr(node, "children", None)
+    return bool(kids) and any(_any_input_locked(c) for c in kids.values())
+
+
+def _is_lock_refusal(exc, graph) -> bool:
+    """a refused input assignment: a plain RuntimeError (not one of its subclasses, e.g. FailedChildError) raised while
+    a data input of the graph is locked — classified by type and state, never by the wording of the message"""
+    return type(exc) is RuntimeError and _any_input_locked(graph)
+
+
 def _poke(owner, pokes):
     """attempt to assign every own input of an out node its current value (no change if wrongly accepted)"""
     from pyiron_workflow.workflow import Workflow
@@ -1053,7 +1070,7 @@ def _run_tree(case):
         except Exception as e:  # noqa: BLE001
             x = e
             while x is not None:
-                if isinstance(x, RuntimeError) and "locked" in str(x):
+                if _is_lock_refusal(x, t):
                     return "locked"
                 x = x.__cause__ or x.__context__
             return f"exc:{type(e).__name__}"
@@ -1192,7 +1209,7 @@ def _run_tree(case):
         except ReadinessError:
             return "readiness"
         except RuntimeError as e:
-            if "locked" in str(e):
+            if _is_lock_refusal(e, t):
                 return "locked"
             excs.append(type(e).__name__)
             return "raised" if kind in ("run", "complete") else f"exc:{type(e).__name__}"
